@@ -134,7 +134,7 @@ func NewFNPrepared(ctx context.Context, p *Produced, rootDir string, prepare fun
 }
 
 func (f *FN) start(reuse *Node) error {
-	opts := NodeOpts{Aggregator: false, InitialHeight: f.P.Spec.Initial, DABlockTime: time.Hour, BlockTime: time.Hour, RootDir: f.RootDir, DAStartHeight: 1}
+	opts := NodeOpts{Aggregator: false, CustomPayload: f.P.Spec.CustomPayload, InitialHeight: f.P.Spec.Initial, DABlockTime: time.Hour, BlockTime: time.Hour, RootDir: f.RootDir, DAStartHeight: 1}
 	dsp := NewMemDS(f.Im)
 	dsp.OnWrite = func(rec WriteRec) {
 		// the stop request arrives right after the n-th application from now made its state durable
